@@ -37,6 +37,9 @@ struct Snap {
 }
 
 pub struct Case {
+    /// snapshots are taken / restored through `Var` + `VarTrail` (search/trail.rs) instead of
+    /// calling the sparse set directly
+    pub via_var: bool,
     s: SparseSet,
     spec: BTreeSet<i32>,
     slots: BTreeMap<u32, Snap>,
@@ -196,7 +199,15 @@ pub fn apply(c: &mut Case, out: &mut Out, op: &str) {
         "ss.save" => {
             let k: u32 = ws[1].parse().unwrap();
             c.seq += 1;
-            let st = c.s.save_state();
+            let st = if c.via_var {
+                use selen::search::trail::{DomainSnapshot, VarTrail};
+                match selen::variables::Var::VarI(c.s.clone()).save_snapshot() {
+                    DomainSnapshot::IntDomain(st) => st,
+                    _ => unreachable!(),
+                }
+            } else {
+                c.s.save_state()
+            };
             c.slots.insert(k, Snap { st, spec: c.spec.clone(), valid: true, why: "-", seq: c.seq });
             Some("saved".into())
         }
@@ -219,7 +230,16 @@ pub fn apply(c: &mut Case, out: &mut Out, op: &str) {
                         }
                     }
                     guarded(|| {
-                        c.s.restore_state(&st);
+                        if c.via_var {
+                            use selen::search::trail::{DomainSnapshot, VarTrail};
+                            let mut v = selen::variables::Var::VarI(std::mem::replace(&mut c.s, SparseSet::new(0, 0)));
+                            v.restore_snapshot(&DomainSnapshot::IntDomain(st.clone()));
+                            if let selen::variables::Var::VarI(s) = v {
+                                c.s = s;
+                            }
+                        } else {
+                            c.s.restore_state(&st);
+                        }
                         show(&c.s)
                     })
                 }
@@ -312,7 +332,7 @@ pub fn create(out: &mut Out, op: &str) -> Option<Case> {
         }
         Some(s) => {
             let l = out.emit(op, show(&s));
-            let mut c = Case { s, spec, slots: BTreeMap::new(), seq: 0, dead: false };
+            let mut c = Case { via_var: false, s, spec, slots: BTreeMap::new(), seq: 0, dead: false };
             c.check(out, l, op, "-");
             Some(c)
         }
@@ -363,9 +383,10 @@ fn rand_op(r: &mut Rng, c: &Case, out: &mut Out, allow_union: bool, allow_restor
     }
 }
 
-pub fn run_case(out: &mut Out, id: &str, create_op: &str, ops: &[String]) {
+pub fn run_case(out: &mut Out, id: &str, create_op: &str, ops: &[String], via_var: bool) {
     out.case(id);
     if let Some(mut c) = create(out, create_op) {
+        c.via_var = via_var;
         for op in ops {
             if c.dead {
                 break;
@@ -403,6 +424,8 @@ pub fn suite(out: &mut Out, seed: u64, count: u64, maxlen: u64) {
         };
         out.stat(&format!("create.{}", create_op.split_whitespace().next().unwrap()));
         let Some(mut c) = create(out, &create_op) else { continue };
+        c.via_var = r.chance(1, 2);
+        out.stat(if c.via_var { "snapshots.via-vartrail" } else { "snapshots.direct" });
         if out.samples.len() < 3 {
             out.samples.push(create_op.clone());
         }
@@ -441,7 +464,7 @@ pub fn exhaustive(out: &mut Out, lo: i32, width: i32, depth: usize) {
     let mut n = 0u64;
     loop {
         let ops: Vec<String> = idx.iter().map(|i| alphabet[*i].clone()).collect();
-        run_case(out, &format!("ssx{n}"), &format!("ss.new {lo} {hi}"), &ops);
+        run_case(out, &format!("ssx{n}"), &format!("ss.new {lo} {hi}"), &ops, n % 2 == 1);
         n += 1;
         // next tuple
         let mut p = depth;
